@@ -618,6 +618,13 @@ def run_property(modname, tier, seed):
         per_site[r["site"]] = per_site.get(r["site"], 0) + r["n"]
         if len(samples) < 12:
             samples += r["samples"][:1]
+    # stream F (inputs derived from the repository's fixture files): tags `fixture:<task>:<perturbation>`, summed over suites
+    # and kept whole (the general histogram below is cut to its 150 largest buckets)
+    fixture_stream = {}
+    for k, v in tags.items():
+        j = k.find(":fixture:")
+        if j >= 0:
+            fixture_stream[k[j + 1:]] = fixture_stream.get(k[j + 1:], 0) + v
     obligations = len(report.theorems) + len(report.gen_obligations)
     broken_names = {b["name"] for b in report.broken}
     discharged = 0
@@ -645,6 +652,7 @@ def run_property(modname, tier, seed):
             "correspondence_cases": n_corr, "correspondence_distinct": len(distinct),
             "correspondence_disagreements": n_dis,
             "correspondence_per_suite": per_suite, "input_distribution": _top(tags, 150),
+            "fixture_stream_cases": sum(fixture_stream.values()), "fixture_stream_distribution": fixture_stream,
             "impl_outcome_kinds": errkinds,
             "oracle_inputs": n_orc, "oracle_per_site": per_site,
             "oracle_failures_unlisted": len(unlisted), "oracle_failures_in_known_regions": suppressed,
